@@ -33,6 +33,12 @@ def generate(tier, seed):
         cases.append({"kind": "built", "seed": "%d:b:%d" % (seed, k), "cost": 40})
     # fine translation sweeps of a small disulfide-bonded fragment whose S-S bond lies along a
     # lattice axis: every 0.01 A over 3 A (any cell list must give the same bonds at every offset)
+    # two or more covalently coupled systems under common charge centres (ligand fragments with several groups)
+    for k in range(40 if tier == "quick" else 1500):
+        cases.append({"kind": "ccc", "seed": "%d:ccc:%d" % (seed, k), "cost": 40})
+    # a pure translation that puts one of the program's own hydrogens exactly onto the origin
+    for k in range(30 if tier == "quick" else 1000):
+        cases.append({"kind": "origin", "seed": "%d:org:%d" % (seed, k), "cost": 40})
     n = 6 if tier == "quick" else 60
     for k in range(n):
         cases.append({"kind": "sweep", "axis": k % 3, "seed": "%d:sw:%d" % (seed, k), "cost": 400})
@@ -211,6 +217,9 @@ def run_case(case, tier):
     if case["kind"] == "sweep":
         desc = sweep_case(case, rng, viol, counts, classes)
         return util.finish(case, viol, counts, classes, True, desc)
+    variant = case["kind"] if case["kind"] in ("ccc", "origin") else None
+    if variant:
+        case = dict(case, kind="built")
     if case["kind"] == "file":
         recs = sources.full_protein(case["file"])
     elif rng.random() < 0.7:
@@ -218,6 +227,17 @@ def run_case(case, tier):
     else:
         recs, _ = sources.chimera(rng)
     recs = sources.no_hydrogens(recs)
+    if variant == "ccc":
+        from .. import fragments
+        placed = 0
+        for k_, fname in enumerate(rng.sample(("triamine", "pentamine", "hexamine", "ethylenediamine", "methylphosphate", "triamine"), 3)):
+            frag, _e, _d = fragments.place_near(recs, fname, rng, dist_A=rng.choice((3.5, 5.0, 7.0)), resnum=930 + k_,
+                                                chain=rng.choice(("L", "M")), min_clear_A=3.0)
+            if frag:
+                recs = recs + frag
+                placed += 1
+        if placed >= 2:
+            classes.append("several-coupled-ligand-systems")
     if case["kind"] == "built" and rng.random() < 0.2:
         # an incomplete residue (a carboxylate without its oxygens, an amide without N, a ring without its
         # nitrogens): whatever stands in for the missing atoms must move with the structure
@@ -242,13 +262,33 @@ def run_case(case, tier):
     # the same parameter file in both frames: common charge centres (absolute positions summed over
     # the atoms of a covalently coupled system), shared determinants, penalised groups kept
     popts = []
-    if (case["kind"] == "file" and case["seed"].endswith(":1")) or (case["kind"] != "file" and rng.random() < 0.3):
+    if (case["kind"] == "file" and case["seed"].endswith(":1")) or (case["kind"] != "file" and rng.random() < 0.3) or variant == "ccc":
         ov = {"common_charge_centre": 1, "shared_determinants": rng.choice((0, 1)),
               "remove_penalised_group": rng.choice((0, 1))}
         popts = ["-p", util.write_cfg(ov)]
         desc["params"] = ov
         classes.append("params:common-charge-centre")
     run0 = obs.run_single(t0, popts, with_atoms=True)
+    if variant == "origin" and not run0.exc:
+        # the frame in which one of the hydrogens the program built (on an atom with two or more heavy
+        # neighbours: a position fixed by the geometry) has the coordinates 0.000 0.000 0.000
+        hs = [h for h in run0.rec["confs"][run0.rec["names"][0]]["hydrogens"] if h["type"] == "atom" and h["parents"]]
+        rng.shuffle(hs)
+        for h in hs[:10]:
+            t_ = tuple(-int(round(v * 1000)) for v in h["xyz"])
+            if rng.random() < 0.5:
+                # ... or lies in one coordinate plane only
+                ax = rng.randrange(3)
+                t_ = tuple(t_[k_] if k_ == ax else rng.randrange(-20000, 20000) for k_ in range(3))
+            cand = pdbio.move(recs, pdbio.IDENTITY, t_)
+            if pdbio.fits(cand):
+                rot, trans, tkind, moved = pdbio.IDENTITY, t_, "hydrogen-at-zero", cand
+                back_key, inv, tinv = motion.key_mapper(rot, trans)
+                back_xyz = motion.float_back(rot, trans)
+                desc.update({"rot": rot, "trans": trans, "trans_kind": tkind})
+                tT = pdbio.dump(moved)
+                classes.append("a-built-hydrogen-at-coordinate-zero")
+                break
     runT = obs.run_single(tT, popts, with_atoms=True)
     counts["pipeline_runs"] = 2
     if run0.exc or runT.exc:
